@@ -40,6 +40,8 @@ def run(tier):
         n = rc.NSHARDS
         rc.run_harness([[exe, "gen", blob, tier, seed, str(k), str(n)] for k in range(n)],
                        timeout=1200 if tier == "quick" else 5400, into=hr)
+        # the same variants called from four threads at once, each on its own buffers
+        rc.run_harness([[exe, "genmt", blob, seed]], timeout=600, into=hr)
         rc.report_fails(v, hr, tier, extra={"witness_sha256": sha0})
 
         if not hr.crashed and (hr.stat("gen_runs") == 0 or hr.stat("table_entries") == 0):
@@ -72,6 +74,7 @@ def run(tier):
             "variants_skipped_cpu": hr.skips,
             "nd_values": nd_values,
             "data_bytes_fed": hr.stat("gen_data_bytes"),
+            "concurrent_calls": hr.stat("genmt_calls"),
             "harness_failures": hr.stat("failures"),
             "harness_shards_stopped_by_crash": hr.crashed,
             "tlc_witness_jobs": res.distinct // 2,
